@@ -67,6 +67,19 @@ OtherPoolsUnchanged(s, p, ids) == /\ DOMAIN Pools(p) = DOMAIN Pools(s)
                                   /\ \A q \in DOMAIN Pools(s) \ ids : Pools(p)[q] = Pools(s)[q]
 Recv(e) == IF e.receiver = "none" THEN e.sender ELSE e.receiver
 
+(* LP weights seen from the pool manager's side (C10): locking LP through a deposit credits the weight to the
+   position owner and to the total in equal measure, and accounts without open positions carry no weight *)
+HistOf(s, a, lp) == IF a \in DOMAIN s.fm.hist /\ lp \in DOMAIN s.fm.hist[a] THEN s.fm.hist[a][lp] ELSE <<>>
+LatestW(s, a, lp) == LET h == HistOf(s, a, lp) IN IF h = <<>> THEN Z ELSE h[Len(h)].w
+WeightCreditedToOwner(s, p, who, lp) ==
+  LET dOwner == BSub(LatestW(p, who, lp), LatestW(s, who, lp))
+      dTotal == BSub(LatestW(p, "fm", lp), LatestW(s, "fm", lp))
+  IN dOwner # Z /\ dOwner = dTotal
+     /\ \A a \in DOMAIN p.fm.hist : (a # who /\ a # "fm") => HistOf(p, a, lp) = HistOf(s, a, lp)
+OpenLpsOf(s, a) == {s.fm.pos[q].lp : q \in {r \in DOMAIN s.fm.pos : s.fm.pos[r].owner = a /\ s.fm.pos[r].open}}
+NoWeightWithoutPosition(s) ==
+  \A a \in DOMAIN s.fm.hist : a # "fm" => \A lp \in DOMAIN s.fm.hist[a] : (lp \notin OpenLpsOf(s, a)) => s.fm.hist[a][lp] = <<>>
+
 (* ------------------------------------------------------------------ state invariants, every event *)
 ReservedOf(s, d) ==
   BSum({<<q, i>> \in UNION {{<<q, i>> : i \in DOMAIN Pools(s)[q].adenoms} : q \in DOMAIN Pools(s)} : Pools(s)[q].adenoms[i] = d},
@@ -96,6 +109,7 @@ Invariants(s, e, p) ==
     C02_lp_supply_only_by_liquidity_ops |-> G(~LiquidityEvent(e), \A q \in DOMAIN Pools(s) : Pools(p)[q].supply = Pools(s)[q].supply),
     C16_immutable |-> Must(Immutable(s, p)),
     C16_lp_denoms_unique |-> Must(LpDenomsUnique(p)),
+    C10_no_weight_without_position |-> Must(NoWeightWithoutPosition(p)),
     C14_no_buffer_left |-> Must(~p.pm_buffer) ]
 
 (* ------------------------------------------------------------------ swaps (C03 C04 C12 C13 C17 C19) *)
@@ -298,7 +312,8 @@ JudgeDepositCore(s, e, p, pl, res0, S0, dep, preT, preSupplyT) ==
        C08_lock_only_for_sender |-> G(lock, e.receiver = "none" \/ e.receiver = e.sender),
        C14_lock_only_for_sender |-> G(lock /\ e.single, e.receiver = "none" \/ e.receiver = e.sender),
        C08_locked_lp_goes_to_senders_position |-> G(lock, LockedFor(s, p, e.sender, pl.lp, minted, e.lock.dur)),
-       C08_unlocked_deposit_touches_no_position |-> G(~lock, p.fm.pos = s.fm.pos) ]
+       C10_locked_lp_weight_credited_to_owner |-> G(lock, WeightCreditedToOwner(s, p, e.sender, pl.lp)),
+       C08_unlocked_deposit_touches_no_position |-> G(~lock, p.fm.pos = s.fm.pos /\ p.fm.hist = s.fm.hist) ]
 
 JudgeProvide(s, e, p) ==
   LET known == e.pool \in DOMAIN Pools(s)
